@@ -46,6 +46,6 @@ Rebase(v, h) == LET c == FDiv(FMul(Two, Motion(v, h).d), FMul(h, FInt(Len(v)))) 
 DetrendOK(v, w, k, tol) ==
   LET n == Len(v)  diff == [j \in 1..n |-> FSub(v[j], w[j])]
   IN /\ Len(w) = n
-     /\ (n <= k + 1 \/ \A j \in 1..(n - k - 1) : Close(Diff(diff, k + 1)[j], Zero, FMul(tol, FInt(32))))
+     /\ (n <= k + 1 \/ (LET dd == Diff(diff, k + 1) IN \A j \in 1..(n - k - 1) : Close(dd[j], Zero, FMul(tol, FInt(32)))))
      /\ \A p \in 0..k : Close(Moment(w, p), Zero, FMul(tol, FInt(n)))
 =============================================================================
